@@ -11,7 +11,8 @@ Section Agg.
   (* agg/any_vec.rs:29 *)
   Definition a_len : N := len mapping.
 
-  (* sparse.rs:24-37: the loop building `indices` and `slot_map`; None = mapping[idx] out of bounds *)
+  (* sparse.rs:24-40: the loop building `indices` and `slot_map` (next_first clamped by `.min(source_len)`);
+     None = mapping[idx] out of bounds *)
   Fixpoint a_build (source_len : N) (idxs : list N) (indices : list N) (slot_map : list (option N))
     : option (list N * list (option N)) :=
     match idxs with
@@ -20,7 +21,7 @@ Section Agg.
         match getb mapping idx with
         | None => None
         | Some current_first =>
-            let next_first := match getb mapping (idx + 1) with Some h => h | None => source_len end in
+            let next_first := N.min (match getb mapping (idx + 1) with Some h => h | None => source_len end) source_len in
             if (next_first =? 0) || (next_first <=? current_first) then
               a_build source_len tl indices (slot_map ++ [None])
             else
@@ -58,7 +59,7 @@ Section Agg.
     | None => Panic
     | Some current_first =>
         let source_len := len src in
-        let next_first := match getb mapping (index + 1) with Some h => h | None => source_len end in
+        let next_first := N.min (match getb mapping (index + 1) with Some h => h | None => source_len end) source_len in
         if (next_first =? 0) || (next_first <=? current_first) then Ok (Some None)
         else Ok (Some (src_one src (next_first - 1)))
     end.
